@@ -16,8 +16,9 @@
 (***************************************************************************)
 EXTENDS Private, Json
 
-VARIABLES l, amb
-tvars == <<vars, l, amb>>
+VARIABLES l, amb,
+          pend     \* sources admitted before the last stop / refusal and not yet seen dialled: their connections may still be in flight
+tvars == <<vars, l, amb, pend>>
 
 Trace == ndJsonDeserialize("trace.ndjson")
 Ev == Trace[l]
@@ -26,37 +27,37 @@ Note(v) == IF v = "" THEN TRUE ELSE PrintT("@@VIOL " \o v \o " " \o ToString(l))
 
 CfgOf(e) == [priv |-> e.priv, dht |-> e.dht, pex |-> e.pex, sibling |-> e.sibling, mode |-> e.mode]
 
-TraceInit == l = 2 /\ Trace[1].ev = "init" /\ InitWith(CfgOf(Trace[1])) /\ amb = Trace[1].amb /\ TLCSet(1, 1)
+TraceInit == l = 2 /\ Trace[1].ev = "init" /\ InitWith(CfgOf(Trace[1])) /\ amb = Trace[1].amb /\ pend = {} /\ TLCSet(1, 1)
 
 TrReset ==
     /\ Ev.ev = "init"
-    /\ cfg' = CfgOf(Ev) /\ amb' = Ev.amb
+    /\ cfg' = CfgOf(Ev) /\ amb' = Ev.amb /\ pend' = {}
     /\ info' = (IF Ev.mode = "file" THEN "known" ELSE "none")
     /\ running' = FALSE /\ conn' = {} /\ pexOn' = {} /\ queue' = {} /\ dialled' = {}
     /\ dhtAnn' = FALSE /\ dhtPending' = FALSE /\ asked' = FALSE /\ sibAsked' = FALSE /\ nodes' = FALSE
     /\ magnetRes' = "none" /\ leak' = {} /\ hist' = 0
     /\ l' = l + 1
 
-Keep == UNCHANGED <<hist, amb>> /\ l' = l + 1
-Skip == UNCHANGED vars /\ UNCHANGED amb /\ l' = l + 1
+Keep == UNCHANGED <<hist, amb, pend>> /\ l' = l + 1
+Skip == UNCHANGED vars /\ UNCHANGED <<amb, pend>> /\ l' = l + 1
 
 \* which restriction is in force: names the violated half of the property
 Why == IF IsPriv THEN "private" ELSE IF info = "refused" THEN "refused" ELSE ""
 
 \* ---- stimuli ---------------------------------------------------------------
-TrStart == Ev.ev = "start" /\ (IF running THEN UNCHANGED vars ELSE DoStart /\ UNCHANGED hist) /\ UNCHANGED amb /\ l' = l + 1
-TrStop  == Ev.ev = "stop" /\ (IF running THEN DoStop /\ UNCHANGED hist ELSE UNCHANGED vars) /\ UNCHANGED amb /\ l' = l + 1
+TrStart == Ev.ev = "start" /\ (IF running THEN UNCHANGED vars ELSE DoStart /\ UNCHANGED hist) /\ pend' = {} /\ UNCHANGED amb /\ l' = l + 1
+TrStop  == Ev.ev = "stop" /\ (IF running THEN DoStop /\ UNCHANGED hist ELSE UNCHANGED vars) /\ pend' = pend \cup queue /\ UNCHANGED amb /\ l' = l + 1
 TrTrackerReply == Ev.ev = "trkreply" /\ DoTrackerPeers /\ Keep
 TrAddPeer == Ev.ev = "addpeer" /\ DoAddPeer /\ Keep
-TrConnIn == Ev.ev = "conn_in" /\ (IF running THEN DoIncoming /\ UNCHANGED hist ELSE UNCHANGED vars) /\ UNCHANGED amb /\ l' = l + 1
-TrExtHs == Ev.ev = "exths" /\ (IF Ev.p \in conn THEN DoExtHs(Ev.p) /\ UNCHANGED hist ELSE UNCHANGED vars) /\ UNCHANGED amb /\ l' = l + 1
-TrPexMsg == Ev.ev = "pexmsg" /\ (IF Ev.p \in conn THEN DoPexMsg(Ev.p) /\ UNCHANGED hist ELSE UNCHANGED vars) /\ UNCHANGED amb /\ l' = l + 1
-TrPortMsg == Ev.ev = "port" /\ (IF Ev.p \in conn THEN DoPortMsg(Ev.p) /\ UNCHANGED hist ELSE UNCHANGED vars) /\ UNCHANGED amb /\ l' = l + 1
-TrSibling == Ev.ev = "sibling" /\ (IF cfg.sibling /\ cfg.dht THEN DoSiblingAsk /\ UNCHANGED hist ELSE UNCHANGED vars) /\ UNCHANGED amb /\ l' = l + 1
+TrConnIn == Ev.ev = "conn_in" /\ (IF running THEN DoIncoming /\ UNCHANGED hist ELSE UNCHANGED vars) /\ UNCHANGED <<amb, pend>> /\ l' = l + 1
+TrExtHs == Ev.ev = "exths" /\ (IF Ev.p \in conn THEN DoExtHs(Ev.p) /\ UNCHANGED hist ELSE UNCHANGED vars) /\ UNCHANGED <<amb, pend>> /\ l' = l + 1
+TrPexMsg == Ev.ev = "pexmsg" /\ (IF Ev.p \in conn THEN DoPexMsg(Ev.p) /\ UNCHANGED hist ELSE UNCHANGED vars) /\ UNCHANGED <<amb, pend>> /\ l' = l + 1
+TrPortMsg == Ev.ev = "port" /\ (IF Ev.p \in conn THEN DoPortMsg(Ev.p) /\ UNCHANGED hist ELSE UNCHANGED vars) /\ UNCHANGED <<amb, pend>> /\ l' = l + 1
+TrSibling == Ev.ev = "sibling" /\ (IF cfg.sibling /\ cfg.dht THEN DoSiblingAsk /\ UNCHANGED hist ELSE UNCHANGED vars) /\ UNCHANGED <<amb, pend>> /\ l' = l + 1
 TrDhtValues ==       \* the DHT stub answered a get_peers for the info-hash with a peer address
     /\ Ev.ev = "dhtvalues"
     /\ IF asked \/ sibAsked THEN DoDhtPeers /\ UNCHANGED hist ELSE UNCHANGED vars
-    /\ UNCHANGED amb /\ l' = l + 1
+    /\ UNCHANGED <<amb, pend>> /\ l' = l + 1
 
 \* ---- observations ------------------------------------------------------------
 \* @obligation C19.pex.acted / C19.dht.fed / C19.metadata.leak.dial
@@ -67,12 +68,14 @@ TrDial ==
        ELSE IF running /\ Ev.src \in queue
             THEN DoDial(Ev.src) /\ UNCHANGED hist
             ELSE /\ Note(IF running /\ (Ev.src \in Allowed \/ (Ev.src \in dialled /\ ~Restricted)) THEN ""   \* further address of an admitted source
-                         ELSE IF Why = "private" THEN (IF Ev.src = "pex" THEN "C19.pex.acted" ELSE IF Ev.src = "dht" THEN "C19.dht.fed" ELSE "C19.sources." \o Ev.src)
+                         ELSE IF ~running /\ Ev.src \in pend THEN ""                    \* admitted before the stop / refusal: in flight
+                         ELSE IF Ev.src \in Allowed THEN "NOTE.dial.unexplained." \o Ev.src        \* an allowed source is never a leak
+                         ELSE IF Why = "private" THEN (IF Ev.src = "pex" THEN "C19.pex.acted" ELSE "C19.dht.fed")
                          ELSE IF Why = "refused" THEN "C19.metadata.leak.dial"
                          ELSE "NOTE.dial.unexplained." \o Ev.src)
                  /\ dialled' = dialled \cup {Ev.src} /\ conn' = conn \cup {Ev.src}
                  /\ UNCHANGED <<cfg, info, running, pexOn, queue, dhtAnn, dhtPending, asked, sibAsked, nodes, magnetRes, leak, hist>>
-    /\ UNCHANGED amb /\ l' = l + 1
+    /\ UNCHANGED <<amb, pend>> /\ l' = l + 1
 
 \* @obligation C19.pex.sent   the client sent a ut_pex message to peer Ev.p
 TrPexRx ==
@@ -97,7 +100,7 @@ TrDhtQ ==
                        ELSE "NOTE.dht.unexplained")
                /\ asked' = TRUE
                /\ UNCHANGED <<cfg, info, running, conn, pexOn, queue, dialled, dhtAnn, dhtPending, sibAsked, nodes, magnetRes, leak, hist>>
-    /\ UNCHANGED amb /\ l' = l + 1
+    /\ UNCHANGED <<amb, pend>> /\ l' = l + 1
 
 \* @obligation C19.metadata   private metadata from a magnet link is refused (and public metadata is adopted)
 TrMeta ==
@@ -110,6 +113,7 @@ TrMeta ==
     /\ IF Ev.outcome \in {"adopted", "refused"} /\ info = "none" /\ running
        THEN DoMetadata(Ev.outcome = "adopted") /\ UNCHANGED hist
        ELSE UNCHANGED vars
+    /\ pend' = IF Ev.outcome = "refused" THEN pend \cup queue ELSE pend
     /\ UNCHANGED amb /\ l' = l + 1
 
 \* @obligation C19.magnet
